@@ -32,6 +32,7 @@ if VERIF not in sys.path:
 
 ORIG_LOAD, ORIG_LOADS = pickle.load, pickle.loads
 REC = {"loads": [], "load": 0}
+CALLER = [None]
 EVENTS = []
 ON = [False]
 PHASE = ["parse"]
@@ -46,7 +47,12 @@ def rec_loads(data, *a, **k):
 
 
 def rec_load(file, *a, **k):
-    REC["load"] += 1
+    # a private in-memory copy is the same thing as pickle.loads of its bytes; anything else is a
+    # read of somebody's stream by the stock unpickler
+    if type(file) is io.BytesIO and file is not CALLER[0]:
+        REC["loads"].append(file.getvalue()[file.tell():].hex())
+    else:
+        REC["load"] += 1
     return ORIG_LOAD(file, *a, **k)
 
 
@@ -256,6 +262,7 @@ def reference(prefix):
 def run_case(case, scratch):
     reset()
     arg, instr, fobj = make_stream(case, scratch)
+    CALLER[0] = arg
     out = {"id": case["id"]}
     ON[0] = True
     try:
